@@ -44,7 +44,8 @@ func H_C10_source_untouched() {
 	opts := []ucfg.Option{ucfg.VarExp, ucfg.PathSep(".")}
 	u := verif.Uint64("u")
 	src, err := ucfg.NewFrom(map[string]interface{}{
-		"a": map[string]interface{}{"b": u, "l": []interface{}{u, "x"}}, "r": "${a.b}", "l": []interface{}{1, 2},
+		"a": map[string]interface{}{"b": u, "l": []interface{}{u, "x"}, "e": map[string]interface{}{}, "el": []interface{}{}},
+		"r": "${a.b}", "l": []interface{}{1, 2}, "e": map[string]interface{}{}, "el": []interface{}{},
 	}, opts...)
 	verif.Assume(err == nil)
 	// the source may itself be a child of another config
@@ -55,7 +56,7 @@ func H_C10_source_untouched() {
 		handle = h
 	}
 	var from interface{}
-	pos := verif.Choice("position", 5)
+	pos := verif.Choice("position", 7)
 	switch pos {
 	case 0:
 		from = handle
@@ -67,6 +68,11 @@ func H_C10_source_untouched() {
 		from = c10Wrap{C: handle, N: u}
 	case 4:
 		from = map[string]interface{}{"k": map[string]interface{}{"deep": handle}}
+	case 5:
+		// a second, dotted key of the same input extends into the embedded config
+		from = map[string]interface{}{"k": handle, "k.added": u, "k.e.x": 1, "k.el.0": 2}
+	case 6:
+		from = map[string]interface{}{"l": []interface{}{handle}, "l.0.added": u}
 	}
 	dst, err := ucfg.NewFrom(map[string]interface{}{"k": map[string]interface{}{"old": 1}, "l": []interface{}{9}, "a": map[string]interface{}{"z": 3}}, opts...)
 	verif.Assume(err == nil)
@@ -84,7 +90,21 @@ func H_C10_source_untouched() {
 
 	// afterwards: writes on one side are invisible on the other
 	dstBefore := snap(dst, opts...)
-	switch verif.Choice("later", 6) {
+	switch verif.Choice("later", 8) {
+	case 6:
+		// writes into containers that were EMPTY when they were copied
+		for _, pfx := range []string{"", "k.", "w.", "l.0.", "k.deep.", "a."} {
+			dst.SetUint(pfx+"e.x", -1, 4242, opts...)
+			dst.SetUint(pfx+"el", 0, 4242, opts...)
+		}
+		verif.Assert(before.same(snap(handle, opts...)), "C10/write into a copied empty container on the destination invisible through source")
+		verif.Assert(beforeRoot.same(snap(src, opts...)), "C10/write into a copied empty container on the destination invisible through source root")
+	case 7:
+		handle.SetUint("e.x", -1, 777, opts...)
+		handle.SetUint("el", 0, 777, opts...)
+		src.SetUint("e.x", -1, 777, opts...)
+		src.SetUint("a.e.x", -1, 777, opts...)
+		verif.Assert(dstBefore.same(snap(dst, opts...)), "C10/write into an empty container of the source invisible through destination")
 	case 0:
 		dst.SetUint("a.b", -1, 4242, opts...)
 		dst.SetUint("k.a.b", -1, 4242, opts...)
